@@ -662,11 +662,15 @@ def spawn_layer_in_subprocess(result, script_parts, options, features,
                                      for line in errlines[-10:]))
             output.error_with_banner(errmsg)
 
-        # In python 3 the names are bytes, so we decode them.
+        # In python 3 the names are bytes, so we decode them.  The
+        # subprocess encodes them for its own stderr, which need not be
+        # UTF-8: a name that cannot be decoded must not lose the result.
         for next_fail in names[:nfail]:
-            failures.append((next_fail.strip().decode(), None))
+            failures.append(
+                (next_fail.strip().decode('utf-8', 'replace'), None))
         for next_err in names[nfail:]:
-            errors.append((next_err.strip().decode(), None))
+            errors.append(
+                (next_err.strip().decode('utf-8', 'replace'), None))
 
     finally:
         result.done = True
